@@ -127,8 +127,8 @@ func returnedValue(ret *ssa.Return, idx int) ssa.Value {
 }
 
 var errDropExceptions = map[string]string{
-	"stream.mergeStream.Close|errgroup.Wait":   "Close has no error result",
-	"parallel.mapStream.Close|errgroup.Wait":   "Close has no error result; the error is reported by Next",
+	"stream.mergeStream.Close|errgroup.Wait": "Close has no error result",
+	"parallel.mapStream.Close|errgroup.Wait": "Close has no error result; the error is reported by Next",
 }
 
 func ruleErrPropagate(c *Ctx, r *R) {
@@ -205,8 +205,8 @@ func ruleErrPropagate(c *Ctx, r *R) {
 				return 0, false
 			}
 			pf.Edge = func(f *ssa.Function, g guard, q int) (StateSet, bool) {
-		blk := g.blk
-		_ = blk
+				blk := g.blk
+				_ = blk
 				if q != 1 {
 					return 0, false
 				}
